@@ -8,6 +8,7 @@ CONSTANTS
  DedupMode = "peer+id"
  AtomicDedup = TRUE
  AllowRelay = TRUE
+ SigCache = "none"
  MCCfgs <- Cfg3
  Bodies = {x}
  MaxFSig = 2
